@@ -31,7 +31,8 @@ ASSUMPTIONS = [
     'PROVED part = determinism as a static effect; it says nothing about the distribution',
     'BOUNDED part = validity of the generated objects (unit norm, unitarity, CPTP, POVM, rank, ... need floating-point linear algebra) over every optional-argument branch with seeded arguments, and the dynamic same-seed echo',
     'CHABoundaryBagging / minimize are exercised on tiny problems only (solver time)',
-    'a static effect failure is reported as a violation only when the dynamic replay (same seed twice with global generators perturbed in between) shows different outputs; otherwise the obligation is undecided',
+    'a static effect failure is replayed dynamically (same seed twice with the global generators perturbed in between; then a directed search over 512 seeds with a sentinel on the global generators). Confirmed -> violation with the failing (arguments, seed). Unconfirmed: an unguarded draw from a process-global generator inside a seeded function is reported as a violation without input (the obligation is discharged on the unchanged tree); the other static failure kinds stay undecided',
+    'PROVED validity for every draw covers only the generators that are algebraic in their draws; generators that go through QR / eigh / expm between the draws and the result are bounded',
 ]
 STUBS = ['numqi.random._public:get_numpy_rng -> symbolic generator (normal / uniform return fresh real symbols, uniform within its range) and numqi.random._internal:_random_complex -> fresh complex symbols, in the every-draw validity proofs']
 NUMPY_MODELS = []
